@@ -331,6 +331,14 @@ class Check:
         self.broken.append(what)
         self.note(f"NOT SHOWN: {what} {detail[:600]}")
 
+    def add_candidate(self, what: dict):
+        """an input on which the model and the implementation disagree (or a proof obligation's witness): not a property
+        failure by itself, but where to look; written into the no-failing-input-found replay file"""
+        if not hasattr(self, "candidates"):
+            self.candidates = []
+        if len(self.candidates) < 3:
+            self.candidates.append(what)
+
     def spec_failure(self, key: str, desc: str, replay: dict):
         """An implementation run on which the property itself fails.
         key identifies the failing class (call site / input class)."""
@@ -400,6 +408,7 @@ class Check:
             path = REPLAYS / f"{self.pid}_{stamp}_nf.json"
             path.write_text(json.dumps(dict(property=self.pid, kind="no-failing-input-found",
                                             not_checking=self.broken, notes=self.notes[-40:],
+                                            model_and_implementation_disagree_on=getattr(self, "candidates", []),
                                             seed=self.seed, tier=self.tier), indent=1, default=str))
             lines.append(f"VIOLATION property={self.pid} replay={path} no-failing-input-found")
         cov = dict(self.cov)
